@@ -201,6 +201,11 @@ impl<T> MMapMeta<T> {
         ensures final(self).written@ == old(self).written@.insert(tail as int, setter.value@), final(self).mmap_contents == old(self).mmap_contents,
     { }
 }
+impl<T> MMapMeta<T> {
+    /// `unsafe { buffer.get_unchecked(head) }` of a subscriber (the index bound is the S-model unit's obligation)
+    #[verifier::external_body]
+    pub fn slot_ref(&self, head: usize) -> (r: &T) { unimplemented!() }
+}
 pub fn spin_hint() { }
 pub struct MMapMetaDynamicSubscriber { pub head: AtomicUsize }
 pub struct MMapMetaFixedSubscriber { pub head: AtomicUsize, pub fixed_tail: usize }
@@ -251,6 +256,30 @@ FNS_A = [
        rules=SUBSCRIBER_FIELDS,
        ensures="final(self).mmap_contents.consumer_tail.observed@.len() == old(self).mmap_contents.consumer_tail.observed@.len() + 1,"
                "r.head@ == final(self).mmap_contents.consumer_tail.observed@.last()"),
+]
+# A-model of the 'new events' cursor: what it may hand out is bounded by ONE observation of consumer_tail ("completely written below here") made in this
+# very call -- publisher_tail (reserved, possibly unwritten entries; what available_elements_count() returns) or any other source says nothing
+TOPIC_ANY = Rule("R6-topic", r"self\.meta_mmap_log_topic\.", "topic.", min=1, note="Arc back-pointer -> explicit topic parameter")
+FNS_A += [
+    fn("consume", IMPL_DYN, C_DYN, out_name="dynamic_consume", props=["C09", "C03"], model="A", kind="mechanism",
+       sig="pub fn dynamic_consume<SlotType, GetterReturnType, GetterFn: FnOnce(&SlotType) -> GetterReturnType, ReportEmptyFn: Fn() -> bool, ReportLenAfterDequeueingFn: FnOnce(i32)>"
+           "(&mut self, topic: &mut MMapMeta<SlotType>, getter_fn: GetterFn, report_empty_fn: ReportEmptyFn, report_len_after_dequeueing_fn: ReportLenAfterDequeueingFn) -> (r: Option<GetterReturnType>)",
+       sig_anchor=CONSUME_SIG_ANCHOR,
+       rules=[MUTSELF, SPIN, TOPIC_ANY,
+              Rule("R6-slot-ref", r"unsafe \{ mutable_self\.buffer\.get_unchecked\(([^()]*)\) \}", r"topic.slot_ref(\1)", count=1, note="unchecked read of the aliased mapping -> slot_ref"),
+              Rule("A-arith", r"\(tail - head\) as i32", "(tail.wrapping_sub(head)) as i32", min=0, note="the reported length is advisory (log text / metrics); its cast is decided in the S-model unit")],
+       requires="forall|s: &SlotType| getter_fn.requires((s,)), report_empty_fn.requires(()), forall|n: i32| report_len_after_dequeueing_fn.requires((n,)), old(self).head@ < usize::MAX",
+       ensures="final(topic).mmap_contents.consumer_tail.observed@.len() == old(topic).mmap_contents.consumer_tail.observed@.len() + 1,"
+               "r is Some ==> old(self).head@ < final(topic).mmap_contents.consumer_tail.observed@.last() && final(self).head@ == old(self).head@ + 1,"
+               "r is None ==> old(self).head@ >= final(topic).mmap_contents.consumer_tail.observed@.last() && final(self).head@ == old(self).head@,"
+               "final(topic).mmap_contents.consumer_tail.committed == old(topic).mmap_contents.consumer_tail.committed, final(topic).mmap_contents.publisher_tail == old(topic).mmap_contents.publisher_tail",
+       loops={0: "invariant self.head@ == head + 1, head == old(self).head@, head < usize::MAX, topic.mmap_contents == mc0,\ndecreases (if self.head@ == head + 1 { 1int } else { 0int }),"}, loops_optional=True,
+       hints=[(r"if head >= tail \{", "let ghost mc0 = topic.mmap_contents;", "before")]),
+    fn("remaining_elements_count", IMPL_DYN, C_DYN, out_name="dynamic_remaining_elements_count", props=["C09", "C06"], kind="mechanism", model="A",
+       sig="pub fn dynamic_remaining_elements_count<SlotType>(&self, topic: &mut MMapMeta<SlotType>) -> (r: usize)", sig_anchor=r"fn remaining_elements_count\(&self\) -> usize",
+       rules=[TOPIC_ANY, Rule("A-arith", r"(topic\.[\w.()]+(?:\(Relaxed\))?) - self\.head\.load\(Relaxed\)", r"(\1).wrapping_sub(self.head.load(Relaxed))", count=1, note="difference of two racy reads: wrapping in the A-model (the S-model unit decides the value)")],
+       ensures="final(topic).mmap_contents.consumer_tail.observed@.len() == old(topic).mmap_contents.consumer_tail.observed@.len() + 1,"
+               "r == final(topic).mmap_contents.consumer_tail.observed@.last().wrapping_sub(self.head@)"),
 ]
 _f = FnSpec(FL, "create_streams_for_old_and_new_events", impl=IMPL_LOG_MULTI, props=["C09"], model="A",
             sig="pub fn create_streams_for_old_and_new_events(&mut self) -> (r: ((MutinyStream, u32), (MutinyStream, u32)))",
